@@ -20,6 +20,9 @@ import hashlib
 
 N = 0xFFFFFFFFFFFFFFFFFFFFFFFFFFFFFFFEBAAEDCE6AF48A03BBFD25E8CD0364141
 MAINNET_P2PKH_PREFIX = 0x55
+MAINNET_P2SH_PREFIX = 0x7a
+# DER SubjectPublicKeyInfo header of an uncompressed secp256k1 point (what python-ecdsa's to_der() of the earlier releases produced)
+SPKI_SECP256K1_PREFIX = bytes.fromhex('3056301006072a8648ce3d020106052b8104000a034200')
 
 
 def sha256(b):
@@ -71,6 +74,24 @@ def wire_fields(b):
             raise ValueError('truncated field')
         out.append((num, wt, v, start, o))
     return out
+
+
+def wire_varint(n: int) -> bytes:
+    out = bytearray()
+    while True:
+        c = n & 0x7F
+        n >>= 7
+        out.append(c | (0x80 if n else 0))
+        if not n:
+            return bytes(out)
+
+
+def wire_varint_field(num: int, value: int) -> bytes:
+    return wire_varint(num << 3) + wire_varint(value)
+
+
+def wire_bytes_field(num: int, payload: bytes) -> bytes:
+    return wire_varint(num << 3 | 2) + wire_varint(len(payload)) + bytes(payload)
 
 
 def _last(b, num):
@@ -165,6 +186,25 @@ def verify_compact(pubkey: bytes, sig64: bytes, digest: bytes) -> bool:
         return False
 
 
+def sign_compact(secret32: bytes, digest: bytes) -> bytes:
+    """r‖s made by the pure-Python library (RFC 6979 nonce; S is NOT normalised, like the earlier releases' python-ecdsa signatures)"""
+    import ecdsa
+    from ecdsa.util import sigencode_string
+    sk = ecdsa.SigningKey.from_string(bytes(secret32), curve=ecdsa.SECP256k1)
+    return sk.sign_digest_deterministic(bytes(digest), hashfunc=hashlib.sha256, sigencode=sigencode_string)
+
+
+def uncompressed_from_secret(secret32: bytes) -> bytes:
+    import ecdsa
+    return ecdsa.SigningKey.from_string(bytes(secret32), curve=ecdsa.SECP256k1).verifying_key.to_string('uncompressed')
+
+
+def v1_signature_field(signature64: bytes, certificate_id: bytes, signature_type: int = 3) -> bytes:
+    """top-level field 5 of a v1 claim: publisherSignature{version=1, signatureType, signature, certificateId}"""
+    return wire_bytes_field(5, wire_varint_field(1, 1) + wire_varint_field(2, signature_type) + wire_bytes_field(3, signature64) +
+                            wire_bytes_field(4, certificate_id))
+
+
 def twin(sig64: bytes) -> bytes:
     """the other valid signature of the same message: (r, n - s)"""
     r, s = sig64[:32], int.from_bytes(sig64[32:], 'big')
@@ -195,4 +235,13 @@ def selftest() -> int:
     ensure(verify_compact(pub, twin(sig), d), 'twin verifies')
     ensure(not verify_compact(pub, bytes([sig[0] ^ 1]) + sig[1:], d), 'flipped bit does not verify')
     ensure(address_bytes(bytes(20), 0)[-4:] == sha256(sha256(bytes(21)))[:4], 'address checksum')
+    # writer against the protobuf encoding document vectors and against the reader; signer against the verifier
+    ensure(wire_varint_field(1, 150) == bytes.fromhex('089601'), 'varint field written')
+    ensure(wire_bytes_field(2, b'testing') == bytes.fromhex('120774657374696e67'), 'length-delimited field written')
+    f5 = v1_signature_field(bytes(range(64)), bytes(range(20)))
+    ensure(f5[:8] == bytes.fromhex('2a5c080110031a40') and envelope(b'\x08\x01' + f5)['signature'] == bytes(range(64))
+           and envelope(b'\x08\x01' + f5)['certificate_id'] == bytes(range(20)) and envelope(b'\x08\x01' + f5)['unsigned_payload'] == b'\x08\x01',
+           'v1 signature field round trip')
+    ensure(verify_compact(pub, sign_compact((7).to_bytes(32, 'big'), d), d), 'own signature verifies')
+    ensure(compressed(SPKI_SECP256K1_PREFIX + uncompressed_from_secret((7).to_bytes(32, 'big'))) == pub, 'DER key decodes to the same point')
     return n
